@@ -47,6 +47,12 @@ PlansC13  == { <<MCut(2, 1), MCut(2, 1), MCut(2, 1), MCut(2, 1), M(1)>>,
 \* k request ids with c intermediate chunks each, none of them ever completed
 Flood(k, c) == [i \in 1..k |-> MCut(c + 1, c)]
 \* (Flood(3, 6) also exceeds the limit inside one request id: the "too many chunks" path)
-FloodsQ   == { Flood(40, 1), Flood(14, 3), Flood(3, 6) }
-FloodsT   == { Flood(40, 1), Flood(14, 3), Flood(3, 6), Flood(120, 1), Flood(30, 4), Flood(6, 4), Flood(2, 12) }
+\* a history of complete (single- and multi-chunk) and aborted messages in front of the flood: whatever
+\* the receiver counts must be back at zero when the flood starts
+History   == <<M(2), M(1), M(3), MA(2), M(2), M(1), M(2), MA(3), M(4), M(1), M(2), M(3)>>
+FloodsQ   == { Flood(40, 1), Flood(14, 3), Flood(3, 6), History \o Flood(16, 1), History \o Flood(6, 3) }
+\* aborted partial messages, then a legal message of MaxChunks intermediate chunks + final: it must be
+\* delivered (conforming streams, compared event by event)
+LegalAfterAborts == { <<MA(3), MA(4), MA(2), M(5), M(1)>>, <<M(5), MA(5), M(5)>>, <<MA(1), M(3), MA(4), M(5)>> }
+FloodsT   == FloodsQ \cup { Flood(120, 1), Flood(30, 4), Flood(6, 4), Flood(2, 12), History \o History \o Flood(40, 1) }
 =============================================================================
